@@ -1,7 +1,11 @@
 package main
 
 import (
+	"bytes"
+	"reflect"
+	"runtime"
 	"sort"
+	"strconv"
 	"sync"
 	"sync/atomic"
 
@@ -28,6 +32,51 @@ type qEv struct {
 	G     int    `json:"g,omitempty"`
 	Stamp int64  `json:"stamp,omitempty"`
 	Panic string `json:"panic,omitempty"`
+	Was   []int  `json:"was,omitempty"`
+}
+
+// goid: the current goroutine's number (the hook runs in the adder's goroutine, so this tells
+// which addition is being linearised without looking into the queue's storage)
+func goid() int64 {
+	var buf [64]byte
+	b := buf[:runtime.Stack(buf[:], false)]
+	b = bytes.TrimPrefix(b, []byte("goroutine "))
+	if i := bytes.IndexByte(b, ' '); i > 0 {
+		n, _ := strconv.ParseInt(string(b[:i]), 10, 64)
+		return n
+	}
+	return -1
+}
+
+// held: number of items the queue holds, as reported by the hook under the queue's lock
+// (the snapshot length if the hook has not fired)
+var heldByHook = -1
+
+func watchHeld() {
+	heldByHook = -1
+	verifhook.Handler = func(point string, kv ...int) {
+		if point == "cq.add.locked" && len(kv) > 0 {
+			heldByHook = kv[0]
+		}
+	}
+}
+
+func held(q *circularQueue.CircularQueue) int {
+	if heldByHook >= 0 {
+		return heldByHook
+	}
+	return len(q.GetMessages())
+}
+
+// setNextIndex: start a queue as if it had already seen very many additions, if the implementation
+// exposes its addition counter
+func setNextIndex(q *circularQueue.CircularQueue, v int) bool {
+	f := reflect.ValueOf(q).Elem().FieldByName("NextIndex")
+	if !f.IsValid() || !f.CanSet() || f.Kind() != reflect.Int {
+		return false
+	}
+	f.SetInt(int64(v))
+	return true
 }
 
 func qmsg(id int) handler.Message {
@@ -57,6 +106,14 @@ func emitQ(w *tr.Writer, e qEv) {
 		m["from"], m["to"], m["len"] = e.From, e.To, e.Len
 	case "get":
 		m["res"], m["len"] = e.Res, e.Len
+	case "still":
+		if e.Was == nil {
+			e.Was = []int{}
+		}
+		if e.Res == nil {
+			e.Res = []int{}
+		}
+		m["was"], m["now"] = e.Was, e.Res
 	case "acall", "aret":
 		m["id"], m["stamp"] = e.ID, e.Stamp
 	case "alin":
@@ -86,16 +143,24 @@ func c18(args []string) {
 		}
 		for bits := 0; bits < 1<<uint(L); bits++ {
 			q := circularQueue.NewCircularQueue(n)
+			watchHeld()
 			emitQ(w, qEv{Ev: "new", N: n})
 			id := 0
+			var snap []handler.Message // the latest snapshot, re-read after the next addition
+			var snapIDs []int
 			for i := 0; i < L; i++ {
 				if bits>>uint(i)&1 == 1 {
 					id++
 					q.Add(qmsg(id))
-					emitQ(w, qEv{Ev: "add", ID: id, Len: len(q.Items)})
+					emitQ(w, qEv{Ev: "add", ID: id, Len: held(q)})
+					if snap != nil {
+						emitQ(w, qEv{Ev: "still", Was: snapIDs, Res: ids(snap)})
+						snap = nil
+					}
 				} else {
 					r := q.GetMessages()
 					emitQ(w, qEv{Ev: "get", Res: ids(r), Len: len(r)})
+					snap, snapIDs = r, ids(r)
 				}
 			}
 		}
@@ -103,7 +168,10 @@ func c18(args []string) {
 	// 2. long runs far beyond the capacity
 	for _, n := range []int{1, 2, 3, 8, 20} {
 		q := circularQueue.NewCircularQueue(n)
+		watchHeld()
 		emitQ(w, qEv{Ev: "new", N: n})
+		var snap []handler.Message
+		var snapIDs []int
 		total := 70000 // beyond 2^16 additions
 		if thorough {
 			total = 140000 // beyond 2^17
@@ -116,24 +184,37 @@ func c18(args []string) {
 				id++
 				q.Add(qmsg(id))
 			}
-			emitQ(w, qEv{Ev: "addn", From: from, To: id, Len: len(q.Items)})
+			emitQ(w, qEv{Ev: "addn", From: from, To: id, Len: held(q)})
+			if snap != nil {
+				emitQ(w, qEv{Ev: "still", Was: snapIDs, Res: ids(snap)})
+			}
 			r := q.GetMessages()
 			emitQ(w, qEv{Ev: "get", Res: ids(r), Len: len(r)})
+			snap, snapIDs = r, ids(r)
 		}
 	}
 	// 2b. queues that have already seen very many additions (the exported index starts near a power of two)
 	for _, start := range []int{1<<16 - 3, 1<<15 - 2, 1<<31 - 3, 1<<32 - 3} {
 		for _, n := range []int{1, 2, 3, 8} {
 			q := circularQueue.NewCircularQueue(n)
-			q.NextIndex = start
+			if !setNextIndex(q, start) {
+				continue
+			}
+			watchHeld()
 			emitQ(w, qEv{Ev: "new", N: n})
 			id := 0
+			var snap []handler.Message
+			var snapIDs []int
 			for step := 0; step < 14; step++ {
 				id++
 				q.Add(qmsg(id))
-				emitQ(w, qEv{Ev: "add", ID: id, Len: len(q.Items)})
+				emitQ(w, qEv{Ev: "add", ID: id, Len: held(q)})
+				if snap != nil {
+					emitQ(w, qEv{Ev: "still", Was: snapIDs, Res: ids(snap)})
+				}
 				r := q.GetMessages()
 				emitQ(w, qEv{Ev: "get", Res: ids(r), Len: len(r)})
+				snap, snapIDs = r, ids(r)
 			}
 		}
 	}
@@ -155,12 +236,13 @@ func c18(args []string) {
 			evs = append(evs, e)
 			mu.Unlock()
 		}
+		var cur sync.Map // goroutine -> id of the addition it is making
 		verifhook.Handler = func(point string, kv ...int) {
-			if point == "cq.add.locked" {
-				// under the write lock, right after the insertion: NextIndex-1 is the key just used
-				idx := kv[1]
-				m := q.Items[idx-1]
-				rec(qEv{Ev: "alin", ID: m.MessageType, Idx: idx, Stamp: atomic.AddInt64(&stamp, 1)})
+			if point == "cq.add.locked" && len(kv) > 1 {
+				// under the write lock, right after the insertion; the hook runs in the adder's goroutine
+				if id, ok := cur.Load(goid()); ok {
+					rec(qEv{Ev: "alin", ID: id.(int), Idx: kv[1], Stamp: atomic.AddInt64(&stamp, 1)})
+				}
 			}
 		}
 		var wg sync.WaitGroup
@@ -170,6 +252,7 @@ func c18(args []string) {
 				defer wg.Done()
 				for i := 1; i <= per; i++ {
 					id := (a+1)*100000 + i
+					cur.Store(goid(), id)
 					rec(qEv{Ev: "acall", ID: id, Stamp: atomic.AddInt64(&stamp, 1)})
 					q.Add(qmsg(id))
 					rec(qEv{Ev: "aret", ID: id, Stamp: atomic.AddInt64(&stamp, 1)})
@@ -184,7 +267,11 @@ func c18(args []string) {
 					gid := (g+1)*1000 + i
 					rec(qEv{Ev: "gcall", G: gid, Stamp: atomic.AddInt64(&stamp, 1)})
 					res := q.GetMessages()
-					rec(qEv{Ev: "gret", G: gid, Res: ids(res), Stamp: atomic.AddInt64(&stamp, 1)})
+					was := ids(res)
+					rec(qEv{Ev: "gret", G: gid, Res: was, Stamp: atomic.AddInt64(&stamp, 1)})
+					runtime.Gosched()
+					// a snapshot stays what it was while additions go on
+					rec(qEv{Ev: "still", Was: was, Res: ids(res), Stamp: atomic.AddInt64(&stamp, 1)})
 				}
 			}(g)
 		}
